@@ -238,6 +238,12 @@ FINDINGS = [
          what="a recursive helper handing its arguments on in another order (alt(q, p, n - 1)) had the variant analysed second typed int because its partner's result was still unknown: alt(2.5, 1, 2) returned 2", cases=[]),
     dict(id="KF-C17-lcd-positional-argument-order", property="C17", status="fixed", commit="8840f2f",
          what="lcd.progress(f(), g(), max_value=h(), width=k()) evaluated the keyword arguments (hoisted into temporaries) before the positional row / value", cases=[]),
+    dict(id="KF-C03-builtin-named-variables", property="C03", status="fixed", commit="5706c86",
+         what="a sketch variable named max / min / abs / len / str was not seen as a name: 'max = 5; max = 7; lo = max' made lo a file-scope constant 5", cases=[]),
+    dict(id="KF-C04-rebound-led-state", property="C04", status="fixed", commit="0d2cbc7",
+         what="a name bound to a second Led / RGBLed kept the first one's tracked state: led = Led(9); led.on(); led = Led(6); led.toggle() switched the new Led off", cases=[]),
+    dict(id="KF-C04-rebound-motor-state", property="C04", status="fixed", commit="b8fbb9a",
+         what="a name bound to a second DCMotor kept the first one's tracked speed / inversion / mode", cases=[]),
     dict(id="KF-C14-lcd-rebind", property="C14", status="open", commit=None,
          what="one name bound first to a parallel LCD and later to an I2C LCD (or the reverse): both libraries are requested, but the emitter keeps only the first display (one header, one object); outside the documented style, like KF-C05-rebind",
          cases=c14_rebind_cases()),
